@@ -131,6 +131,13 @@ impl Prop for P {
                 }
             }
         }
+        // a user's walk through the public Node accessors enumerates what stream() enumerates (S of `line`)
+        if x.is_none() {
+            let kvs = f.stream().into_byte_vec();
+            if let Err(e) = crate::wrap::node_walk(&f, &kvs, 2000) {
+                x = Some(e);
+            }
+        }
         match x {
             None => line,
             Some(msg) => {
